@@ -975,37 +975,3 @@ Proof.
   assert (Hg : sc_good w rs (mk_sc_state sh (map (sc_thread_prog fuel ScVCtx w) threads))) by (split; assumption).
   apply (sc_run_good w rs sched _ Hg).
 Qed.
-
-(* the seeded scenario in the model: a/t cached from the first phase, its file rewritten with a later time stamp,
-   auto-reload on; the left-over entry is a good start and both goroutines of the second phase get the new text *)
-Definition sc_w_ph (txt : bytes) (mt : Z) : sc_world :=
-  mk_sc_world [mk_sc_loader true [[(b#"a/t.twig", mk_sc_file (ScSrcTpl (mk_sc_tpl None [ScItFlat (ScFText txt)] [])) mt)]]]
-    false [] [] [] true true.
-Definition sc_sh_ph : sc_shared :=
-  st_sh (sc_run (sc_w_ph b#"old" 10) (repeat 0 40) (sc_init 5 (sc_w_ph b#"old" 10) [[ScCRender false b#"a/t.twig" []]])).
-
-Lemma sc_phase_example :
-  sc_results (sc_run (sc_w_ph b#"new" 20) ([0; 1; 0; 1; 1; 0] ++ repeat 0 40 ++ repeat 1 40)
-                (sc_phase_state 5 (sc_w_ph b#"new" 20) sc_sh_ph [[ScCRender false b#"a/t.twig" []]; [ScCRender true b#"a/t.twig" []]]))
-  = [Some [ScOOk b#"new"]; Some [ScOOk b#"new"]].
-Proof. vm_compute. reflexivity. Qed.
-
-(* the hypothesis of the phase theorem holds at the start of that second phase, through the left-over entry *)
-Lemma sc_phase_example_start_ok : sc_phase_start_ok (sc_w_ph b#"new" 20) sc_sh_ph.
-Proof.
-  assert (Hsh : sc_sh_ph = mk_sc_shared
-            [(b#"a/t.twig", mk_sc_entry (mk_sc_tpl None [ScItFlat (ScFText b#"old")] []) b#"a/t.twig" (Some 0) 10%Z)]
-            [[(b#"a/t.twig", 0)]] [] [] []) by (vm_compute; reflexivity).
-  unfold sc_phase_start_ok. rewrite Hsh. constructor; simpl.
-  - intros n e H. destruct (bytes_eqb b#"a/t.twig" n) eqn:En; [|discriminate].
-    apply bytes_eqb_eq in En. subst n. inversion H; subst e. right.
-    split; [reflexivity|split; [reflexivity|]]. exists 0. split; [reflexivity|]. right.
-    split; [reflexivity|split; [vm_compute; reflexivity|vm_compute; reflexivity]].
-  - intros n [H|H]; exfalso; apply H; reflexivity.
-  - intros [|i] l Hl; simpl in Hl.
-    + inversion Hl; subst l. simpl. intros n d H. simpl in H.
-      destruct (bytes_eqb b#"a/t.twig" n) eqn:En; [|discriminate].
-      apply bytes_eqb_eq in En. subst n. inversion H; subst d. eexists. vm_compute. reflexivity.
-    + destruct i; discriminate.
-  - intros ty a e H. discriminate.
-Qed.
